@@ -148,14 +148,24 @@ class MessageSigner(object):
         # Decode base64 and a bitmask in first byte.
         is_compressed, recid, r, s = self._decode_signature(signature)
 
-        # Calculate the specific public key used to sign this message.
-        y_parity = recid & 1
-        q = self._generator.possible_public_pairs_for_signature(
-            msg_hash, (r, s), y_parity=y_parity
-        )[0]
-        if recid > 1:
-            order = self._generator.order()
-            q = self._generator.Point(q[0] + order, q[1])
+        # Calculate the specific public key used to sign this message:
+        # Q = (s * R - msg_hash * G) / r, where R is the curve point whose x coordinate
+        # is r (or r + order when bit 1 of recid is set) and whose y has parity recid & 1.
+        generator = self._generator
+        order = generator.order()
+        if not (1 <= r < order and 1 <= s < order):
+            raise EncodingError("r or s out of range")
+        x = r + (order if recid > 1 else 0)
+        if x >= generator.p():
+            raise EncodingError("no such point for this recovery id")
+        try:
+            R = generator.points_for_x(x)[recid & 1]
+        except ValueError:
+            raise EncodingError("no curve point matches r")
+        inv_r = generator.inverse(r)
+        q = (s * inv_r) * R + (-(inv_r * msg_hash)) * generator
+        if q == generator.infinity():
+            raise EncodingError("signature does not determine a public key")
         return q, is_compressed
 
     def pair_matches_key(self, pair: Any, key: Any, is_compressed: bool) -> bool:
